@@ -4,6 +4,7 @@ func init() {
 	register(&PropertySpec{
 		ID: "C06",
 		Rules: []RuleSpec{
+			{"revalidate-covers-admission", "every admission check of verifyAndPoolTx that reads chain state is repeated by IsTxStillRelevant, the filter the pool goes through after every block, on every path that answers true: pooled transactions are not verified again when they come in a block, so the pool must hold valid transactions at every height", ruleRevalidateCoversAdmission},
 			{"err-discipline", "no error returned by a function of the module is discarded (called as a statement or assigned to _) in block acceptance (pkg/core, dao, block), except at the tabled sites whose reason is recorded: a dropped error is a dropped check or a lost write", func(c *Ctx) { ruleErrDiscipline(c, "pkg/core", "pkg/core/dao", "pkg/core/block") }},
 			{"absent-is-nil", "a lookup that returns nil for a missing key and may return a stored empty value (dao.GetStorageItem, BoltDB bucket Get) is never tested for absence by length", func(c *Ctx) { ruleAbsentIsNil(c, "pkg/core", "pkg/core/dao", "pkg/core/block") }},
 			{"unsigned-window", "an ordering comparison one operand of which is the difference of two non-constant unsigned values (a height minus a window) is made only where the function tests the order of those two values: otherwise the difference wraps around and \"older than the retained window\" holds for every height of a short chain", func(c *Ctx) { ruleUnsignedWindow(c, "pkg/core", "pkg/core/dao", "pkg/core/block") }},
@@ -383,6 +384,8 @@ func init() {
 	register(&PropertySpec{
 		ID: "C19",
 		Rules: []RuleSpec{
+			{"revalidate-covers-admission", "every admission check of verifyAndPoolTx that reads chain state is repeated by IsTxStillRelevant, the filter the pool goes through after every block, on every path that answers true: pooled transactions are not verified again when they come in a block, so the pool must hold valid transactions at every height", ruleRevalidateCoversAdmission},
+			{"epoch-mirror", "the list of allowed extensible senders, the ledger's mirror of NEO's next block validators, is rebuilt for exactly the block indices at which NEO.OnPersist replaces them: consensus payloads of newly elected validators are admitted from the first block of their epoch", ruleEpochMirror},
 			{"err-discipline", "no error returned by a function of the module is discarded (called as a statement or assigned to _) in the consensus service, except at the tabled sites whose reason is recorded: a dropped error is a dropped check or a lost write", func(c *Ctx) { ruleErrDiscipline(c, "pkg/consensus") }},
 			{"absent-is-nil", "a lookup that returns nil for a missing key and may return a stored empty value (dao.GetStorageItem, BoltDB bucket Get) is never tested for absence by length", func(c *Ctx) { ruleAbsentIsNil(c, "pkg/consensus") }},
 			{"unsigned-window", "an ordering comparison one operand of which is the difference of two non-constant unsigned values (a height minus a window) is made only where the function tests the order of those two values: otherwise the difference wraps around and \"older than the retained window\" holds for every height of a short chain", func(c *Ctx) { ruleUnsignedWindow(c, "pkg/consensus") }},
@@ -460,6 +463,7 @@ func init() {
 	register(&PropertySpec{
 		ID: "C07",
 		Rules: []RuleSpec{
+			{"revalidate-covers-admission", "every admission check of verifyAndPoolTx that reads chain state is repeated by IsTxStillRelevant, the filter the pool goes through after every block, on every path that answers true: pooled transactions are not verified again when they come in a block, so the pool must hold valid transactions at every height", ruleRevalidateCoversAdmission},
 			{"err-discipline", "no error returned by a function of the module is discarded (called as a statement or assigned to _) in transaction admission (pkg/core, mempool, transaction, fee), except at the tabled sites whose reason is recorded: a dropped error is a dropped check or a lost write", func(c *Ctx) {
 				ruleErrDiscipline(c, "pkg/core", "pkg/core/mempool", "pkg/core/transaction", "pkg/core/fee")
 			}},
